@@ -394,6 +394,43 @@ def c01_cases(seed, n, tier, replay=None):
                               "opts": {"has_impl": False, "hooks": True}})
                 meta[cid] = {"source": "derived_name:" + label, "settings": cases[-1]["settings"], "settings_sig": "small",
                              "history_kind": hk + (":" + ">".join(order) if order else ""), "supported": False, "doc": doc}
+    # map-typed members: every key constraint x value kind x required/optional/defaulted, under each map type
+    key_kinds = {"plain": {}, "names_pattern": {"propertyNames": {"pattern": "^[a-z]+$"}},
+                 "names_len": {"propertyNames": {"maxLength": 8}}, "names_ref": {"propertyNames": {"$ref": "#/definitions/Key"}},
+                 "pattern_props": None}
+    val_kinds = {"any": True, "absent": None, "string": {"type": "string"}, "ref": {"$ref": "#/definitions/Val"},
+                 "nested_map": {"type": "object", "additionalProperties": {"type": "integer"}}}
+    k_ = 0
+    for kk, kc in key_kinds.items():
+        for vk, vs in val_kinds.items():
+            props, req = {}, []
+            for mode in ("opt", "req", "dflt"):
+                if kc is None:
+                    m = {"type": "object", "patternProperties": {"^x-": ({} if vs in (True, None) else vs)},
+                         "additionalProperties": False}
+                else:
+                    m = dict({"type": "object"}, **kc)
+                    if vs is not None:
+                        m["additionalProperties"] = vs
+                if mode == "dflt":
+                    m["default"] = {}
+                props["m_" + mode] = m
+                if mode == "req":
+                    req.append("m_req")
+            doc = {"definitions": {"Key": {"type": "string", "pattern": "^[a-z]+$"},
+                                   "Val": {"type": "object", "properties": {"v": {"type": "integer"}}},
+                                   "Holder": {"type": "object", "properties": props, "required": req},
+                                   "Named": props["m_opt"]}}
+            for mt in (None, "::std::collections::BTreeMap", "::vrt::support::VMap"):
+                cid = "m%03d" % k_
+                k_ += 1
+                st = {"struct_builder": k_ % 2 == 0}
+                if mt:
+                    st["map_type"] = mt
+                cases.append({"id": cid, "settings": st, "history": [{"op": "root", "schema": doc}],
+                              "opts": {"has_impl": False, "hooks": True}})
+                meta[cid] = {"source": "map_members:%s/%s" % (kk, vk), "settings": st, "settings_sig": "map:" + str(mt),
+                             "history_kind": "root", "supported": False, "doc": doc}
     for i, (name, doc) in enumerate(schemars_corpus()):
         r = util.rng(seed, "C01", "m", name)
         add("m%04d" % i, doc, "schemars:" + name, r, supported=True, settings={}, hk=r.choice(["root", "refs_split"]))
